@@ -27,6 +27,8 @@ BIN = "c06"
 PLONK_CFGS = {0: "RecVerifier_plonk_l0", 1: "RecVerifier_plonk_l1", 2: "RecVerifier_plonk", 3: "RecVerifier_plonk_l3"}
 CANARIES = {  # disabled circuit-side check -> cfg
     "grinding range check": "RecVerifier_canary_pow",
+    "last bit of the grinding range check (one leading zero too few enforced)": "RecVerifier_canary_pow1",
+    "Merkle check of the Z/partial-products oracle": "RecVerifier_canary_oracle2",
     "final polynomial equality": "RecVerifier_canary_final",
     "constants/sigmas Merkle cap": "RecVerifier_canary_cap",
     "vanishing identity of challenge index 1": "RecVerifier_canary_vanishing1",
@@ -120,8 +122,11 @@ def shapes(chk, tier, rnd):
     plain = [p for p in p1 + psim if not uses(p, ("lookup", "hash", "hash_or_noop", "merkle"))]
     pick = lambda xs: xs[rnd.randrange(len(xs))]
     # slot = (program pool, configuration pool, padding choices, outer configuration)
+    # slot 0: the standard configuration with 8 grinding bits, so that the boundary classes of the grinding condition
+    # (exactly 7 / exactly 8 leading zeros, found by hashing ~2^8 candidates) are cheap
+    pow8 = dict(std, pow=8)
     slots = [
-        (plain, [std], [0], {}),
+        (plain, [pow8], [0], {}),
         (psim, layered, [40, 100, 200], {}),
         (lookups, [std] + strong, [0, 30], {}),
         (plain + hashes, strong_zk, [0], {}),
@@ -198,6 +203,16 @@ def judge(rows_by_id, res, cats, report, selftest=False):
         cl = st["classes"].setdefault(x["class"], {"n": 0, "native_reject": 0})
         cl["n"] += 1
         cl["native_reject"] += 0 if x["native"] else 1
+        base = x["class"].split(":")[0]
+        if base in ("init_path", "step_path") and not x["native"] and not x["circuit"] and "Merkle" in x["native_detail"]:
+            sib = st.setdefault("siblings", {}).setdefault(x["id"], {"init": set(), "step": set(), "nrounds": None})
+            if base == "init_path":
+                sib["init"].add((x["desc"]["oracle"], "last" if x["class"].endswith("@last") else "first", x["desc"]["round"]))
+            else:
+                sib["step"].add((x["desc"]["layer"], "last" if x["class"].endswith("@last") else "first"))
+        if x["class"] in ("pow_short1", "pow_exact"):
+            st.setdefault("pow_boundary", []).append({"class": x["class"], "desc": x["desc"], "native": x["native"], "native_detail": x["native_detail"],
+                                                      "circuit": x["circuit"]})
         if x["circuit"] != x["native"]:
             report("violation", "C06/disagree/%s/native-%s" % (x["class"], "accepts" if x["native"] else "rejects"),
                    "in-circuit acceptance (%s, %s) differs from the native verdict (%s %s)" % (x["circuit"], x["stage"], x["native"], x["native_detail"]), payload)
@@ -240,6 +255,7 @@ def run(chk, tier):
                        "constraint satisfied (oracle trusts the gates' eval_unfiltered, see C07)",
                        "the inner configuration uses Poseidon (the recursive verifier requires an AlgebraicHasher; a Keccak inner config cannot be embedded); Keccak outer configurations are exercised",
                        "'must be rejected natively' is only noted (as drift) for inner configurations with >= 50 bits of binding; the asserted statement is the equality of the two verdicts",
+                       "slot 0 uses the standard configuration with 8 grinding bits (not a member of the spec/Configs.tla lattice) for the grinding boundary classes",
                        "model: ideal hash (a re-randomised challenge fails every check reading it); 2 query rounds, 2 challenges, 0..3 layers"]
     # ---- A: the model (in the background: harness build; model runs; meanwhile programs and configurations)
     import threading
@@ -301,12 +317,41 @@ def run(chk, tier):
     chk.extra["classes"] = st["classes"]
     chk.extra["shapes"] = [x["shape"] for x in res if "shape" in x]
     # vacuity: every class of the full model must have been exercised, and rejected natively at least once
-    need = set(cats[2]) - {"none", "op_lzs", "op_lzs_next", "one_z", "vd_cap_one"}
+    need = set(cats[2]) - {"none", "op_lzs", "op_lzs_next", "one_z", "vd_cap_one", "pow_exact"}
     missing = sorted(c for c in need if st["classes"].get(c, {}).get("native_reject", 0) == 0)
     if thorough:
         missing += [c for c in ("op_lzs", "op_lzs_next") if st["classes"].get(c, {}).get("n", 0) == 0]
     if missing:
         raise ToolError("vacuity: classes never exercised with a natively rejected proof: %s" % missing)
+    # boundary classes of the grinding condition: one bit short is rejected for that reason, exactly enough is accepted
+    pb = st.get("pow_boundary", [])
+    chk.extra["pow_boundary"] = pb
+    if not any(b["class"] == "pow_short1" and not b["native"] and "proof of work" in b["native_detail"] and not b["circuit"] for b in pb) \
+            or not any(b["class"] == "pow_exact" and b["native"] and b["circuit"] for b in pb):
+        raise ToolError("vacuity: grinding boundary classes not exercised: %s" % pb)
+    # one sibling per oracle (first and last query round) in every shape, and per commit-phase layer incl. the last one
+    sib = st.get("siblings", {})
+    shapes_by_id = {x["id"]: x["shape"] for x in res if "shape" in x}
+    gaps, last_layers = [], 0
+    for sid, sh in shapes_by_id.items():
+        got = sib.get(sid, {"init": set(), "step": set()})
+        for o in range(4):
+            for rc in ("first", "last"):
+                if not any(a == o and b == rc for a, b, _ in got["init"]):
+                    gaps.append("%s: oracle %d %s round" % (sid, o, rc))
+        if sh["init_siblings"] == 0:
+            gaps = [g for g in gaps if not g.startswith(sid + ": oracle")]      # trees as small as their cap: no sibling at all
+        nl = len(sh["layers"])
+        for l in range(nl):
+            # a layer whose tree is as small as its cap has no sibling
+            if sh["step_siblings"][l] > 0 and not any(a == l for a, _ in got["step"]):
+                gaps.append("%s: layer %d" % (sid, l))
+        if nl and any(a == nl - 1 for a, _ in got["step"]):
+            last_layers += 1
+    chk.extra["sibling_coverage"] = {sid: {"init": sorted("%d/%s" % (a, b) for a, b, _ in v["init"]), "step": sorted("%d/%s" % (a, b) for a, b in v["step"])}
+                                     for sid, v in sib.items()}
+    if gaps or last_layers == 0:
+        raise ToolError("vacuity: Merkle sibling tampers missing: %s (shapes whose last layer was hit: %d)" % (gaps[:6], last_layers))
     if st["agree_accept"] < st["shapes"] or st["shapes"] < (nslots * 2) // 3:
         raise ToolError("vacuity: %d shapes of %d slots, %d accepted cases" % (st["shapes"], nslots, st["agree_accept"]))
     if st["outer_checked"] < st["shapes"]:
